@@ -225,6 +225,28 @@ def run_keys(spec, res):
             common.add_violation(res, f"keys raise {type(e).__name__}",
                                  {"err": repr(e)[:300], "tags": tags})
             return
+    # 3+1 -> 4D promotion of a purely spatial tensor, asked on a fresh instance
+    # (before anything built betaup3 when the shift was given by components)
+    rel_s = harness.make_rel(fd, inp, clear_cache_every_nbr_calc=10**9,
+                             memory_threshold_inGB=1e9)
+    with common.Quiet():
+        got['s_to_st(K)#fresh'] = np.array(rel_s.s_to_st(K))
+        got['s_to_st(K)#later'] = np.array(rel.s_to_st(K))
+    K4 = np.zeros((4, 4) + n)
+    bK = np.einsum('i...,ik...->k...', be, K)
+    K4[0, 0] = np.einsum('i...,i...->...', be, bK)
+    K4[0, 1:] = K4[1:, 0] = bK
+    K4[1:, 1:] = K
+    want['s_to_st(K)#fresh'] = K4
+    want['s_to_st(K)#later'] = K4
+    # second pass: every cached value is still what was handed out
+    with common.Quiet():
+        for k in list(want):
+            if k != 'gdet' and k in rel.data and isinstance(got.get(k), np.ndarray):
+                res['observations'] += 1
+                if not np.array_equal(np.asarray(rel[k]), got[k]):
+                    common.add_violation(res, f"{k} changed in the cache after later requests",
+                                         {"tags": tags})
     want['gdet#from_3+1'] = want['gdet']
     want['gdet#from_gdown4'] = want['gdet']
     want['levicivita_down3'] = S.LC3.reshape(S.LC3.shape + (1, 1, 1)) * np.sqrt(det)
